@@ -139,6 +139,10 @@ func (s session) Object(ref object.ObjectReference) (bus.Proxy, error) {
 
 func (s session) Terminate() error { return nil }
 
+// Session returns a bus.Session that resolves proxies and object references
+// on this connection.
+func (c *Conn) Session() bus.Session { return session{c} }
+
 func (c *Conn) proxy(objectID uint32) (bus.Proxy, error) {
 	meta, err := bus.GetMetaObject(c.Client, c.W.ServiceID, objectID)
 	if err != nil {
